@@ -19,10 +19,11 @@ def regenerate(chk):
     if ops != tr_opcodes.committed():
         problems.append('opcode enumeration of mir.h differs from coq/Mir/Opcode.v')
     tr_c02_interp.main()
-    import tr_c02_gvn, tr_c02_peephole, tr_c02_x86pat
+    import tr_c02_gvn, tr_c02_peephole, tr_c02_x86pat, tr_c02_x86builtin
     tr_c02_gvn.main()
     tr_c02_peephole.main()
     problems += tr_c02_x86pat.main() or []
+    problems += tr_c02_x86builtin.main() or []
     # rows / constructs that were not in their literal canonical form and were tied by an SMT equivalence (all operand
     # values, QF_BV) resp. symbolic execution + SMT; operand values on which an extracted row differs from the canonical one
     import tr_c02_smt
@@ -422,6 +423,38 @@ def generate(chk, infos, quick, c20=False):
             n += 1
             lines.append(G.gen_case(info, rng, c20=c20, cid= 't%d' % n, vals=vals, shapes=shapes, dst='r', pre=pre, post=post))
     lines += aimed_lines(chk, infos, quick, c20, byname)
+    lines += conversion_lines(chk, infos, quick, c20, byname)
+    return lines
+
+
+def conversion_lines(chk, infos, quick, c20, byname):
+    """every conversion opcode at the rounding boundaries DERIVED from its two formats (G.conversion_values: midpoints of
+    neighbouring results of both parities, midpoint +- the least operand bit and +- 2^j, last significand before a carry,
+    overflow to infinity, denormal results, underflow to zero, truncation next to every integer binade, +-2^63), the
+    operand in a register, as an immediate (the constant folder's copy of the conversion) and in memory; five engines"""
+    rng = chk.rng('conv')
+    lines = []
+    cap = 10 ** 9 if quick else 14000
+    for name in G.CONVERSIONS:
+        info = byname.get(name)
+        if info is None or not G.testable(info):
+            continue
+        kind, vals = G.conversion_values(name, rng, quick)
+        if len(vals) > cap:
+            vals = rng.sample(vals, cap)
+        for v, tag in vals:
+            chk.dist('conversion_boundary', name + ':' + re.sub(r'[-+]?\d+(<<\d+)?$', '', tag.split(':')[-1].lstrip('-')))
+            x = rng.random()
+            sh = 'r' if x < 0.6 else 'i' if x < 0.8 else 'm'
+            optexts = None
+            if kind == 'i':
+                if sh == 'i' and v >> 63 and rng.random() < 0.5:
+                    sh = 'u'
+                if sh == 'm':       # the whole operand: 64-bit memory types only
+                    forms = ['b', 'bd', 'bi', 'bid'] if c20 else G.FORMS
+                    optexts = [G.mem_desc(rng, rng.choice(['i64', 'u64']), forms) + ':%x' % v]
+            dst = 'r' if rng.random() < 0.75 else None
+            lines.append(G.gen_case(info, rng, 'v%d' % len(lines), vals=[v], shapes=[sh], dst=dst, c20=c20, optexts=optexts, press=0))
     return lines
 
 
@@ -831,6 +864,8 @@ def run(chk):
             chk.finding('tie:' + p[:40], dict(problem=p), p, no_input=True)
     if not r['ok'] and not bad:
         found = model_search(chk, exe, oracle, infos, ops)
+        if not found:
+            found = builtin_search(chk, exe, oracle, infos)
         if not found and x86bad:
             found = x86_model_search(chk, exe, oracle, infos, x86bad)
         if not found:
@@ -960,6 +995,34 @@ def x86_model_search(chk, exe, oracle, infos, rows):
     if not lines:
         return False
     chk.log('x86 pattern rows rejected by the recogniser: %d; %d aimed cases' % (len(rows), len(lines)))
+    bad = correspond(chk, exe, oracle, infos, lines)
+    if bad:
+        report(chk, bad)
+        return True
+    return False
+
+
+def builtin_search(chk, exe, oracle, infos):
+    """the proof broke and the ordinary run agrees: the opcodes the x86-64 generator executes by a builtin C function
+    (regenerated list) on the complete boundary set of their conversion (every binade, every offset from the midpoint),
+    operand in a register, so that the generated code really calls the function"""
+    import tr_c02_x86builtin as B
+    try:
+        rows, codes, _ = B.translate(vlib.REPO)
+    except Exception:
+        return False
+    rng = chk.rng('builtin-search')
+    byname = {i.name: i for i in infos}
+    lines = []
+    for name in sorted(set(codes) | set(o for o, _ in rows)):
+        info = byname.get(name)
+        if info is None or not G.testable(info) or name not in G.CONVERSIONS:
+            continue
+        kind, vals = G.conversion_values(name, rng, False)
+        for v, tag in vals[:20000]:
+            lines.append(G.gen_case(info, rng, 'B%d' % len(lines), vals=[v], shapes=['r'], dst='r', press=0))
+    if not lines:
+        return False
     bad = correspond(chk, exe, oracle, infos, lines)
     if bad:
         report(chk, bad)
